@@ -42,6 +42,9 @@ type c02Plan struct {
 	// does not take part (another group key; everybody else keeps the participant index). At the end the shares of BOTH
 	// rounds must lie on their own round's polynomial - what a machine holds for one round must not depend on the other.
 	Prior bool `json:"prior,omitempty"`
+	// Refeed: after the round has finished, one operator feeds the round's first operation file to the still running
+	// machine once more (a QR code scanned twice); whatever the machine answers, it keeps its share
+	Refeed bool `json:"refeed,omitempty"`
 }
 
 type c02Fault struct {
@@ -90,6 +93,7 @@ func c02Gen(rt *rapid.T) c02Plan {
 		p.Fault = &c02Fault{Machine: rapid.IntRange(0, p.N-1).Draw(rt, "faultMachine"), Step: rapid.SampledFrom(c02Steps).Draw(rt, "faultStep"), Key: rapid.IntRange(0, 40).Draw(rt, "faultKey")}
 	}
 	p.Prior = p.N >= 3 && p.T <= p.N-1 && rapid.IntRange(0, 2).Draw(rt, "prior") == 0
+	p.Refeed = rapid.IntRange(0, 2).Draw(rt, "refeed") == 0
 	return p
 }
 
@@ -151,6 +155,7 @@ type c02Obs struct {
 	DevPosted    bool
 	DevLast      bool // the deviant announcement was the last key announcement on the board
 	PriorChecked bool
+	Refed        bool
 	FaultKey     string
 	FaultSeen    string // what the operator saw from the machine during the fault
 	Err          error
@@ -201,7 +206,11 @@ func c02Execute(p c02Plan, root string) (obs c02Obs) {
 	var genuinePoly []byte
 	_ = genuinePoly
 	faultDone := false
+	firstOpFile := map[int][]byte{}
 	answer := func(i int, op *types.Operation) error {
+		if string(op.Type) == "state_dkg_commits_await_confirmations" && firstOpFile[i] == nil {
+			firstOpFile[i], _ = w.Nodes[i].OperationFile(op.ID)
+		}
 		if f := p.Fault; f != nil && !faultDone && f.Machine == i && string(op.Type) == f.Step {
 			faultDone = true
 			var err error
@@ -348,6 +357,16 @@ func c02Execute(p c02Plan, root string) (obs c02Obs) {
 	obs.DevLast = p.Deviant >= 0 && last == w.Names[p.Deviant]
 	if !anyReady {
 		return
+	}
+	if p.Refeed {
+		m := len(p.Tape) % p.N
+		if f := firstOpFile[m]; f != nil {
+			func() {
+				defer func() { _ = recover() }()
+				_, _ = w.Machines[m].Process(f)
+			}()
+			obs.Refed = true
+		}
 	}
 	// ---- the round is signing-ready somewhere: (a)-(e) must hold --------------------------------------
 	vsuite := bls12381.NewBLS12381Suite(nil)
@@ -539,6 +558,9 @@ func c02Run(t *testing.T, st *vstat.Stats, p c02Plan) *viol {
 		st.Class("honest:ready")
 		if obs.PriorChecked {
 			st.Class("honest:ready-with-an-earlier-round-on-the-same-machines")
+		}
+		if obs.Refed {
+			st.Class("honest:ready-and-first-operation-fed-again")
 		}
 		if len(p.Tape) > 0 {
 			st.NonTrivial(fmt.Sprintf("h/%d/%d/%v", p.N, p.T, p.Tape))
